@@ -52,15 +52,18 @@ META = {
         "lowering in this tree: an scf.while is left untouched, and an scf.for/scf.if nested in a while body is "
         "left as a multi-block region the verifier rejects), scf-for-loop-range-folding, scf-for-loop-flatten "
         "(both variants), scf-for-loop-unroll, licm (trait table + worklist on flat bodies), control-flow-hoist "
-        "(scf.if: all-or-nothing hoist decided by the trait table; the driver's dead-op removal and the CSE run "
-        "are not modelled, generated branches contain neither dead nor duplicate ops; affine.if hoisting not "
-        "modelled), lower-affine (affine.apply expressions; affine.for with the single closed-expression bounds "
+        "(scf.if and affine.if: all-or-nothing hoist decided by the trait table; the driver's dead-op removal and "
+        "the CSE run are not modelled, generated branches contain neither dead nor duplicate ops), lower-affine (affine.apply expressions; affine.for with the single closed-expression bounds "
         "the pass supports -- max/min maps assert, bounds with operands raise IndexError, both modelled as "
         "raises; affine.load/store index maps over dims -- maps with symbols raise; the pass has no affine.if "
-        "lowering), frontend-desymrefy on a single block whose symbols are all declared in it (prune_definitions; "
-        "the binary search lower_positional_bound is modelled by its specification; theorem: the forwarded "
-        "update is the cell content; the pass result equals a reference one-pass forwarding on every generated "
-        "block; prune_uses_without_definitions and nested regions are not modelled -- nested regions are the "
+        "lowering), frontend-desymrefy on a single block without nested regions (prune_definitions AND "
+        "prune_uses_without_definitions, i.e. symbols declared in the block and symbols of an enclosing scope; "
+        "the binary search lower_positional_bound is modelled by its specification, the iteration order of the "
+        "symbol set is not modelled; theorems: the forwarded update is the cell content, and the reference "
+        "forwardings `forward`/`forward2` preserve every computed value and the final content of enclosing-scope "
+        "cells on every block in SSA form; the modelled pass result equals `forward` on every generated block "
+        "whose symbols are all declared, and is validated per case against the theorems' store semantics "
+        "otherwise; nested regions are not modelled: they are the "
         "known finding C16-kf-9). Not covered by a model: "
         "nested/pipelined programs (before/after evaluator only), the IR-manipulation lines of every pass "
         "(that is C01/C11)."),
@@ -367,6 +370,23 @@ class Ev:
                 iv += step
             for r, v in zip(op.results, carried):
                 env[r] = v
+            return None
+        if n == "affine.if":
+            st_ = op.condition.data
+            vs = [g(v) for v in op.operands]
+            dims, syms = vs[:st_.num_dims], vs[st_.num_dims:]
+            sat = True
+            for c in st_.constraints:
+                l, r = _aff(c.lhs, dims, syms), _aff(c.rhs, dims, syms)
+                sat = sat and {"ge": l >= r, "le": l <= r, "eq": l == r}[c.kind.name]
+            reg = op.regions[0] if sat else op.regions[1]
+            vals = []
+            if reg.blocks:
+                kind, vals = self.region(reg, [], env)
+                if kind != "yield":
+                    raise Unsupported(kind)
+            for r, x in zip(op.results, vals):
+                env[r] = x
             return None
         if n == "affine.apply":
             m = op.map.data
@@ -1855,13 +1875,57 @@ def cfh_text(case):
     return t.module("%r")
 
 
+def cfh_module_affine(case):
+    """the same program as cfh_text with an affine.if on the set (d0, d1) : (d1 - d0 - 1 >= 0), i.e. a0 < a1"""
+    from xdsl.dialects import affine, arith, func
+    from xdsl.dialects.builtin import AffineSetAttr, IndexType, IntegerAttr, ModuleOp
+    from xdsl.ir import Block, Region
+    from xdsl.ir.affine import AffineConstraintExpr, AffineConstraintKind, AffineExpr, AffineSet
+    idx = IndexType()
+    entry = Block(arg_types=[idx] * N_ARGS)
+    consts = {}
+
+    def cst(k):
+        if k not in consts:
+            consts[k] = arith.ConstantOp(IntegerAttr.from_index_int_value(k))
+        return consts[k].result
+    cls = {"addi": arith.AddiOp, "subi": arith.SubiOp, "muli": arith.MuliOp, "divsi": arith.DivSIOp,
+           "remsi": arith.RemSIOp, "floordivsi": arith.FloorDivSIOp, "ceildivsi": arith.CeilDivSIOp,
+           "remui": arith.RemUIOp}
+    regions = []
+    for ops, dflt in ((case["then"], 2), (case["else"], 3)):
+        blk, res, last = Block(), {}, entry.args[dflt]
+
+        def r(ref):
+            return entry.args[ref[1]] if ref[0] == "a" else cst(ref[1]) if ref[0] == "c" else res[ref[1]]
+        for j, o in enumerate(ops):
+            if o["k"] == "call":
+                blk.add_op(func.CallOp("eff", [r(o["a"])], []))
+            else:
+                op = cls[o["k"]](r(o["a"]), r(o["b"]))
+                blk.add_op(op)
+                res[j] = last = op.results[0]
+        blk.add_op(affine.YieldOp.get(last))
+        regions.append(Region(blk))
+    d0, d1 = AffineExpr.dimension(0), AffineExpr.dimension(1)
+    cond = AffineSetAttr(AffineSet(2, 0, (AffineConstraintExpr(AffineConstraintKind.ge, d1 - d0 - 1,
+                                                               AffineExpr.constant(0)),)))
+    ifop = affine.IfOp.build(operands=[[entry.args[0], entry.args[1]]], result_types=[[idx]],
+                             properties={"condition": cond}, regions=regions)
+    entry.add_ops([c.owner for c in (consts[k].result for k in sorted(consts))])
+    entry.add_ops([ifop, func.CallOp("eff", [ifop.results[0]], []), func.ReturnOp(ifop.results[0])])
+    m = ModuleOp([func.FuncOp.external("eff", [idx], []), func.FuncOp("f", ([idx] * N_ARGS, [idx]), Region(entry))])
+    m.verify()
+    return m
+
+
 def cfh_impl(case):
-    m = parse(cfh_text(case))
+    m = cfh_module_affine(case) if case.get("affine") else parse(cfh_text(case))
     before = m.clone()
     f = func_f(m)
     apply_pass(m, "control-flow-hoist")
-    ifop = next(o for o in f.walk() if o.name == "scf.if")
-    left = sum(1 for reg in ifop.regions for o in reg.block.ops if o.name != "scf.yield")
+    ifop = next(o for o in f.walk() if o.name in ("scf.if", "affine.if"))
+    left = sum(1 for reg in ifop.regions for o in reg.block.ops if o.name not in ("scf.yield", "affine.yield"))
     codes = []
     for o in f.body.blocks[0].ops:
         if o is ifop:
@@ -1911,7 +1975,8 @@ def cfh_cases(rng, n):
             return ops
         # both branch directions with zero divisors among the arguments (the op of the branch NOT taken must not trap)
         zs = [[0, 1, rng.randint(0, 4), 0], [1, 0, 0, rng.randint(0, 4)], [0, 1, 0, 0], [2, 1, 0, 0]]
-        out.append({"then": branch(), "else": branch(), "inputs": rand_inputs(rng, 3, -3, 6) + zs})
+        out.append({"then": branch(), "else": branch(), "affine": rng.random() < 0.35,
+                    "inputs": rand_inputs(rng, 3, -3, 6) + zs})
     return out
 
 
@@ -1927,7 +1992,8 @@ def cfh_known(case, res):
 
 
 def cfh_nontrivial(case, res):
-    return ckey({"t": case["then"], "e": case["else"]}) if isinstance(res, list) and res[0] == 1 else None
+    return (ckey({"t": case["then"], "e": case["else"], "aff": bool(case.get("affine"))})
+            if isinstance(res, list) and res[0] == 1 else None)
 
 
 # ============================================================================ family: frontend-desymrefy (single block)
@@ -1997,7 +2063,7 @@ def desym_impl(case):
         elif o.name == "arith.addi":
             out.append([3, names[o.results[0]][1], [names[x] for x in o.operands]])
     remember(case, before, m, case["inputs"])
-    return [out, out, 1]
+    return [out, out, 1, 1, 1]
 
 
 def desym_coq(case):
@@ -2345,8 +2411,7 @@ def run(ctx: Ctx):
     ctx.coverage["semantics_dependent_inputs_not_listed"] = (
         f"{NOTES['semantics_dependent_inputs']} input(s) differed only under the cmpi-slt reading of a non-positive "
         "step produced by the pass (range folding by a negative multiplier) and agree under Python-range semantics")
-    ctx.coverage["not_modelled"] = ["scf.while lowering (absent from convert-scf-to-cf)", "affine.if (no lowering, hoisting "
-                                    "not modelled)", "desymref: prune_uses_without_definitions, nested regions (C16-kf-9)",
+    ctx.coverage["not_modelled"] = ["scf.while lowering (absent from convert-scf-to-cf)", "affine.if lowering (absent from lower-affine)", "desymref: nested regions (C16-kf-9), multi-block regions (the pass raises)",
                                     "CSE / dead-op removal inside control-flow-hoist"]
     ctx.coverage["pipelines_nested_programs"] = PIPELINES
 
